@@ -279,6 +279,17 @@ func (ci *chrootInfo) funcParamCalledWithChecked(callee *ssa.Function, fp *ssa.P
 			if _, isDbg := ref.(*ssa.DebugRef); isDbg {
 				continue
 			}
+			// captured by an inner closure (the parameter is spilled to a cell whose
+			// address the closure binds): every call of it inside that closure must
+			// pass a checked path, and the closure itself must be dispatched by a
+			// helper that calls it with checked paths
+			if st, isStore := ref.(*ssa.Store); isStore && st.Val == ssa.Value(fp) {
+				if ok2, why := ci.capturedCallbackChecked(callee, st.Addr, argIdx, depth+1); ok2 {
+					continue
+				} else if why != "" {
+					return false, why
+				}
+			}
 			return false, fmt.Sprintf("in %s the operation callback is stored or forwarded, not called directly", fnName(callee))
 		}
 		if argIdx >= len(call.Common().Args) {
@@ -290,6 +301,70 @@ func (ci *chrootInfo) funcParamCalledWithChecked(callee *ssa.Function, fp *ssa.P
 		}
 	}
 	return true, ""
+}
+
+// capturedCallbackChecked: cell holds a callback parameter of outer; it is only
+// bound into closures created in outer, and inside them only loaded and called
+// with a checked path at argIdx.
+func (ci *chrootInfo) capturedCallbackChecked(outer *ssa.Function, cell ssa.Value, argIdx, depth int) (bool, string) {
+	al, ok := cell.(*ssa.Alloc)
+	if !ok || al.Referrers() == nil || depth > 5 {
+		return false, ""
+	}
+	n := 0
+	for _, r := range *al.Referrers() {
+		switch x := r.(type) {
+		case *ssa.Store, *ssa.DebugRef:
+		case *ssa.UnOp:
+			// called directly in outer after the spill
+			for _, r2 := range *x.Referrers() {
+				call, ok := r2.(ssa.CallInstruction)
+				if !ok || call.Common().Value != ssa.Value(x) || argIdx >= len(call.Common().Args) {
+					return false, fmt.Sprintf("in %s the operation callback is stored or forwarded, not called directly", fnName(outer))
+				}
+				if ok2, why := ci.checkedAt(call.Common().Args[argIdx], call, depth); !ok2 {
+					return false, fmt.Sprintf("in %s: %s", fnName(outer), why)
+				}
+				n++
+			}
+		case *ssa.MakeClosure:
+			inner, _ := x.Fn.(*ssa.Function)
+			if inner == nil {
+				return false, ""
+			}
+			for k, b := range x.Bindings {
+				if b != ssa.Value(al) || k >= len(inner.FreeVars) {
+					continue
+				}
+				fv := inner.FreeVars[k]
+				if fv.Referrers() == nil {
+					continue
+				}
+				for _, r2 := range *fv.Referrers() {
+					ld, ok := r2.(*ssa.UnOp)
+					if !ok {
+						if _, isDbg := r2.(*ssa.DebugRef); isDbg {
+							continue
+						}
+						return false, fmt.Sprintf("in %s the captured operation callback is stored or overwritten", fnName(inner))
+					}
+					for _, r3 := range *ld.Referrers() {
+						call, ok := r3.(ssa.CallInstruction)
+						if !ok || call.Common().Value != ssa.Value(ld) || argIdx >= len(call.Common().Args) {
+							return false, fmt.Sprintf("in %s the captured operation callback is forwarded, not called directly", fnName(inner))
+						}
+						if ok2, why := ci.checkedAt(call.Common().Args[argIdx], call, depth); !ok2 {
+							return false, fmt.Sprintf("in %s: %s", fnName(inner), why)
+						}
+						n++
+					}
+				}
+			}
+		default:
+			return false, ""
+		}
+	}
+	return n > 0, ""
 }
 
 // nilOutcomeDominates: call returns an error e; site is only reachable when
@@ -670,6 +745,9 @@ func c18AllowShape(c *Check, ci *chrootInfo) {
 			}
 		}
 	})
+	if !found {
+		found = rejectsParentByAtoms(f, rel)
+	}
 	c.Cond(found, "ALLOW-SHAPE", key+"|first segment == \"..\" ⇒ error", p.pos(f.Pos()),
 		"a relative path whose first separator-delimited segment is \"..\" is rejected with an error",
 		"no test of the first segment of the relative path against \"..\" that ends in a non-nil error")
@@ -685,6 +763,148 @@ func c18AllowShape(c *Check, ci *chrootInfo) {
 		}
 	}
 	c.Cond(relErrReturned, "ALLOW-SHAPE", key+"|Rel error returned", p.pos(rel.Pos()), "failure of filepath.Rel is returned as an error", "the error of filepath.Rel is not returned")
+}
+
+// rejectsParentByAtoms recognises the other spellings of "the first segment of
+// the relative path is ..": `rel == ".." || strings.HasPrefix(rel, ".."+sep)`,
+// written in the range test itself or in a bool predicate helper applied to the
+// relative path. Both atoms must be present and each must, when true, lead to
+// the error return (in the helper: to a true result).
+func rejectsParentByAtoms(f *ssa.Function, rel *ssa.Call) bool {
+	isRel := func(v ssa.Value) bool {
+		ex, ok := v.(*ssa.Extract)
+		return ok && ex.Tuple == rel && ex.Index == 0
+	}
+	// true outcome of cond leads to a non-nil error return of f
+	rejectsIn := func(cond ssa.Value) bool {
+		for _, br := range branchesOn(cond) {
+			t := br.TrueSucc
+			if ret, ok := t.Instrs[len(t.Instrs)-1].(*ssa.Return); ok && len(ret.Results) == 1 && !isNilConst(ret.Results[0]) {
+				return true
+			}
+		}
+		return false
+	}
+	atoms := func(g *ssa.Function, isPath func(ssa.Value) bool, implies func(ssa.Value) bool) bool {
+		eq, prefix := false, false
+		eachInstr(g, func(_ *ssa.BasicBlock, i ssa.Instruction) {
+			switch x := i.(type) {
+			case *ssa.BinOp:
+				if x.Op != token.EQL {
+					return
+				}
+				sv, isC := constString(x.Y)
+				o := x.X
+				if !isC {
+					sv, isC = constString(x.X)
+					o = x.Y
+				}
+				if isC && sv == ".." && isPath(o) && implies(x) {
+					eq = true
+				}
+			case *ssa.Call:
+				if !callIs(x, "strings", "HasPrefix") || len(x.Call.Args) != 2 || !isPath(x.Call.Args[0]) {
+					return
+				}
+				pv := x.Call.Args[1]
+				okPrefix := false
+				if sv, ok := constString(pv); ok && (sv == "../" || sv == "..\\") {
+					okPrefix = true
+				}
+				if b, ok := pv.(*ssa.BinOp); ok && b.Op == token.ADD {
+					if sv, ok := constString(b.X); ok && sv == ".." {
+						// ".." + string(os.PathSeparator)
+						y := stripValue(b.Y)
+						if cv, ok := y.(*ssa.Convert); ok {
+							y = cv.X
+						}
+						if k, ok := constInt(y); ok && (k == '/' || k == '\\') {
+							okPrefix = true
+						}
+						if sv2, ok := constString(y); ok && (sv2 == "/" || sv2 == "\\") {
+							okPrefix = true
+						}
+					}
+				}
+				if okPrefix && implies(x) {
+					prefix = true
+				}
+			}
+		})
+		return eq && prefix
+	}
+	// written in the range test itself
+	if atoms(f, isRel, rejectsIn) {
+		return true
+	}
+	// or in a predicate helper applied to the relative path
+	ok := false
+	eachInstr(f, func(_ *ssa.BasicBlock, i ssa.Instruction) {
+		call, isCall := i.(*ssa.Call)
+		if !isCall || ok {
+			return
+		}
+		h := staticCallee(call)
+		if h == nil || !isRepoFn(h) || len(h.Blocks) == 0 || h.Signature.Results().Len() != 1 || !isBoolType(h.Signature.Results().At(0).Type()) {
+			return
+		}
+		pi := -1
+		for k, a := range call.Call.Args {
+			if isRel(a) {
+				pi = k
+			}
+		}
+		if pi < 0 || pi >= len(h.Params) || !rejectsIn(call) {
+			return
+		}
+		prm := h.Params[pi]
+		// an atom implies a true result when it is returned, is an edge of the
+		// returned phi, or controls a branch whose true side gives the returned
+		// phi a constant true
+		returned := map[ssa.Value]bool{}
+		var phis []*ssa.Phi
+		for _, b := range h.Blocks {
+			if ret, isRet := b.Instrs[len(b.Instrs)-1].(*ssa.Return); isRet && len(ret.Results) == 1 {
+				returned[ret.Results[0]] = true
+				if ph, isPhi := ret.Results[0].(*ssa.Phi); isPhi {
+					phis = append(phis, ph)
+					for _, e := range ph.Edges {
+						returned[e] = true
+					}
+				}
+			}
+		}
+		implies := func(v ssa.Value) bool {
+			if returned[v] {
+				return true
+			}
+			for _, br := range branchesOn(v) {
+				for _, ph := range phis {
+					for k, e := range ph.Edges {
+						if cv, isC := e.(*ssa.Const); isC && cv.Value != nil && cv.Value.String() == "true" {
+							pred := ph.Block().Preds[k]
+							if pred == br.If.Block() && br.TrueSucc == ph.Block() {
+								return true
+							}
+							if pred == br.TrueSucc {
+								return true
+							}
+						}
+					}
+				}
+				if ret, isRet := br.TrueSucc.Instrs[len(br.TrueSucc.Instrs)-1].(*ssa.Return); isRet && len(ret.Results) == 1 {
+					if cv, isC := ret.Results[0].(*ssa.Const); isC && cv.Value != nil && cv.Value.String() == "true" {
+						return true
+					}
+				}
+			}
+			return false
+		}
+		if atoms(h, func(v ssa.Value) bool { return v == ssa.Value(prm) }, implies) {
+			ok = true
+		}
+	})
+	return ok
 }
 
 func firstSegmentOf(x ssa.Value, rel *ssa.Call) bool {
